@@ -383,6 +383,7 @@ func r204(c *an.Ctx) {
 		ap := an.AccessPath(v)
 		return ap == src.Name()+"."+fld+"."+sub
 	}
+	litVal := map[string]ssa.Value{}
 	for _, fld := range []string{"Used", "Remaining"} {
 		var lit map[string]ssa.Value
 		var where token.Pos = fn.Pos()
@@ -396,6 +397,7 @@ func r204(c *an.Ctx) {
 				return
 			}
 			lit, _ = litFields(st.Val)
+			litVal[fld] = st.Val
 			where = st.Pos()
 		})
 		if lit == nil {
@@ -410,8 +412,23 @@ func r204(c *an.Ctx) {
 			wantOp = token.SUB
 		}
 		okArith, okFloor := false, fld == "Used"
+		// every value the literal's Amount receives: its initialiser and later assignments (`left.Amount = 0`)
+		var amtVals []ssa.Value
+		var amtStores []*ssa.Store
+		if _, alloc := litFields(litVal[fld]); alloc != nil {
+			for _, u := range an.Referrers(alloc) {
+				if fa, isFA := u.(*ssa.FieldAddr); isFA && faName(fa) == "Amount" {
+					for _, u2 := range an.Referrers(fa) {
+						if st, isSt := u2.(*ssa.Store); isSt && st.Addr == ssa.Value(fa) {
+							amtStores = append(amtStores, st)
+							amtVals = append(amtVals, an.ValuesAt(st.Val)...)
+						}
+					}
+				}
+			}
+		}
 		if amt := lit["Amount"]; amt != nil {
-			for _, v := range an.ValuesAt(amt) {
+			for _, v := range amtVals {
 				if k, isC := v.(*ssa.Const); isC && fld == "Remaining" {
 					if k.Value != nil && k.Value.ExactString() == "0" {
 						okFloor = true
@@ -436,6 +453,30 @@ func r204(c *an.Ctx) {
 			// floor: the constant 0 is selected under amount < 0
 			if fld == "Remaining" && okFloor {
 				okFloor = false
+				// (a) a later assignment of 0 guarded by `<the amount> < 0`
+				for _, st := range amtStores {
+					if k, isC := st.Val.(*ssa.Const); !isC || k.Value == nil || k.Value.ExactString() != "0" {
+						continue
+					}
+					for _, g := range an.GuardingEdges(st) {
+						lo, hi, strict, isOrd := an.OrderFact(g)
+						if !isOrd || !strict {
+							continue
+						}
+						if k2, isC := hi.(*ssa.Const); !isC || k2.Value == nil || k2.Value.ExactString() != "0" {
+							continue
+						}
+						// lo is the amount: the field just written, or the difference itself
+						if ld, isLoad := lo.(*ssa.UnOp); isLoad {
+							if fa, isFA := ld.X.(*ssa.FieldAddr); isFA && faName(fa) == "Amount" {
+								okFloor = true
+							}
+						}
+						if bo, isBO := lo.(*ssa.BinOp); isBO && bo.Op == token.SUB {
+							okFloor = true
+						}
+					}
+				}
 				if phi, isPhi := amt.(*ssa.Phi); isPhi {
 					for i, e := range phi.Edges {
 						if k, isC := e.(*ssa.Const); isC && k.Value != nil && k.Value.ExactString() == "0" {
